@@ -288,7 +288,7 @@ Section TextWidth.
       write_truncated_start cw sw data ell max = (out, w) ->
       sw data = swidth data -> sw ell = swidth ell ->
       w = swidth out /\ (swidth out <= max)%nat
-      /\ ((swidth data <= max)%nat -> out = trim_start_zero cw data)
+      /\ ((swidth data <= max)%nat -> out = data)
       /\ ((max < swidth data)%nat ->
           exists t e p q, out = e ++ t /\ data = p ++ t /\ ell = q ++ e).
     Proof.
@@ -312,7 +312,7 @@ Section TextWidth.
           split; [reflexivity|]. split.
           * rewrite Hdata, <- app_assoc. f_equal. exact Hzk.
           * rewrite Hell, <- app_assoc. f_equal. exact Hze.
-      - injection H as <- <-. rewrite swidth_trim. split; [reflexivity|]. split; [exact Hle|].
+      - injection H as <- <-. split; [reflexivity|]. split; [exact Hle|].
         split; [reflexivity|]. intros; lia.
     Qed.
 
@@ -372,12 +372,15 @@ Proof.
   vm_compute. repeat split; lia.
 Qed.
 
-(** write_truncated_start drops leading zero-width characters of content that fits. *)
-Lemma truncated_start_fits_refuted :
+(** Before /repo commit a58816e write_truncated_start dropped leading zero-width characters of
+    content that fits (the repaired finding; the current function is covered by
+    write_truncated_start_spec). *)
+Lemma truncated_start_old_fits_refuted :
   exists (cw : bool -> nat) data max,
     (swidth cw data <= max)%nat /\
-    fst (write_truncated_start cw (swidth cw) data [] max) <> data.
+    fst (write_truncated_start_old cw (swidth cw) data [] max) <> data
+    /\ fst (write_truncated_start cw (swidth cw) data [] max) = data.
 Proof.
   exists (fun b : bool => if b then 1%nat else 0%nat), (false :: true :: nil), 5%nat.
-  vm_compute. split; [lia | discriminate].
+  vm_compute. split; [lia|]. split; [discriminate | reflexivity].
 Qed.
